@@ -127,6 +127,26 @@ pub fn gen(rng: &mut Rng, kind: &str, len: usize) -> Vec<u8> {
             v = pool;
             let n = v.len(); return { v.truncate(n); v };
         }
+        "clen_deep" => {
+            // the CODE-LENGTH alphabet of the dynamic block gets Fibonacci-like frequencies over nine symbols
+            // (1, 1, 2, 3, 5, 8, 13, 21, ~100), so its unrestricted Huffman tree is 8 levels deep and the 7-bit
+            // limit of that alphabet has to be enforced. Literal code lengths by design: a byte value meant to get
+            // length L occurs 2^(10-L) times (1 value of length 1, 3 of length 4, 5 of 5, 8 of 7, 13 of 8, 21 of 9,
+            // 1 of 10; with the end-of-block symbol at length 10 a complete code); values three apart, so that the
+            // lengths are separated by short zero runs and never form repeat runs
+            let design: [(u32, usize); 7] = [(1, 1), (4, 3), (5, 5), (7, 8), (8, 13), (9, 21), (10, 1)];
+            let shift = rng.below(3);
+            let mut slots: Vec<u32> = vec![];
+            for &(l, n) in design.iter() { for _ in 0..n { slots.push(l); } }
+            if rng.chance(1, 2) { for i in (1..slots.len()).rev() { let j = rng.below(i + 1); slots.swap(i, j); } }
+            let mut pool: Vec<(u8, usize)> = slots.iter().enumerate().map(|(i, &l)| ((102 - shift + 3 * i) as u8, 1usize << (10 - l))).collect();
+            match rng.below(3) {
+                0 => { loop { let mut any = false; for e in pool.iter_mut() { if e.1 > 0 { e.1 -= 1; v.push(e.0); any = true; } } if !any { break; } } }
+                1 => { for e in pool.iter() { for _ in 0..e.1 { v.push(e.0); } } }
+                _ => { for e in pool.iter() { for _ in 0..e.1 { v.push(e.0); } } for i in (1..v.len()).rev() { let j = rng.below(i + 1); v.swap(i, j); } }
+            }
+            return v;
+        }
         "lazy_cut" => {
             // incompressible filler (a 16-bit counter: no 3-byte repeats) in which a deferred (lazy) match
             // is superseded by a longer one exactly where a 31 KiB block is cut: earlier text holds
